@@ -165,6 +165,8 @@ var c15Kinds = []string{"authn-doc", "authn-string", "authn-nosig", "authn-doc-u
 func runC15(c *mon.Ctx) {
 	base := BaseTime(c.Seed)
 	var pooled *KeyedSP // one long-lived provider (fixed keys) re-configured for every other case
+	var heldDoc *etree.Document
+	var heldXML, heldDesc string
 	n := c.N(4000, 200000)
 	for k := 0; k < n; k++ {
 		cs := c.Begin("outbound-structure", k)
@@ -203,6 +205,7 @@ func runC15(c *mon.Ctx) {
 		}
 		var xml string
 		var err error
+		var builtDoc *etree.Document
 		pv, stack := mon.Guard(func() {
 			switch kind {
 			case "authn-nosig":
@@ -210,6 +213,7 @@ func runC15(c *mon.Ctx) {
 				var d *etree.Document
 				if d, err = sp.BuildAuthRequestDocumentNoSig(); err == nil {
 					xml, err = d.WriteToString()
+					builtDoc = d
 				}
 			case "authn-doc-unsigned-cfg":
 				signed = false
@@ -223,12 +227,14 @@ func runC15(c *mon.Ctx) {
 				var d *etree.Document
 				if d, err = sp.BuildLogoutRequestDocumentNoSig(args.NameID, args.SessionIndex); err == nil {
 					xml, err = d.WriteToString()
+					builtDoc = d
 				}
 			case "logoutresp-nosig":
 				signed = false
 				var d *etree.Document
 				if d, err = sp.BuildLogoutResponseDocumentNoSig(args.Status, args.ReqID); err == nil {
 					xml, err = d.WriteToString()
+					builtDoc = d
 				}
 			default:
 				xml, err = buildSigned(sp, kind, args)
@@ -242,6 +248,19 @@ func runC15(c *mon.Ctx) {
 		if err != nil {
 			cs.Violation("build-error", "%s could not be built: %v", kind, err)
 			continue
+		}
+		// a document the application still holds (built a few messages ago, not yet sent) is not touched by later builds
+		if heldDoc != nil {
+			if again, _ := heldDoc.WriteToString(); again != heldXML {
+				cs.Nontrivial(cs.Description())
+				cs.Outcome("earlier-document-changed")
+				cs.Violation("earlier-document-changed", "an unsigned document built earlier (%s) reads differently after this %s was built:\n was %s\n now %s", heldDesc, kind, trunc(heldXML, 400), trunc(again, 400))
+				heldDoc = nil
+				continue
+			}
+		}
+		if builtDoc != nil && (heldDoc == nil || k%3 == 0) {
+			heldDoc, heldXML, heldDesc = builtDoc, xml, fmt.Sprintf("%s, case %d", kind, k)
 		}
 		cs.Input([]byte(xml))
 		cs.Nontrivial(cs.Description())
